@@ -168,12 +168,17 @@ func newFixture(kinds []string, mutate func(cfg *router.Config)) (*fixture, erro
 	for _, k := range kinds {
 		sc := router.ServerConfig{Tag: k, Protocol: k}
 		netw := "tcp"
-		if k == "udp" || k == "quic" {
+		if k == "udp" || k == "quic" || k == "udpmr" {
 			netw = "udp"
 		}
 		p := freePort(netw)
 		f.ports[k] = p
 		sc.Listen = fmt.Sprintf("127.0.0.1:%d", p)
+		if k == "udpmr" { // udp on the wildcard address with multi_routes: the reply must leave from the address the query came to
+			sc.Protocol = "udp"
+			sc.Listen = fmt.Sprintf("0.0.0.0:%d", p)
+			sc.Udp.MultiRoutes = true
+		}
 		if k == "tls" || k == "https" || k == "quic" {
 			sc.Tls.DebugUseTempCert = true
 		}
@@ -267,8 +272,12 @@ type exchResult struct {
 // via: "get" | "post" for HTTP kinds.
 func (f *fixture) exchange(kind string, msg []byte, via string, wait time.Duration) exchResult {
 	switch kind {
-	case "udp":
-		c, err := net.DialUDP("udp", nil, &net.UDPAddr{IP: net.IPv4(127, 0, 0, 1), Port: f.ports[kind]})
+	case "udp", "udpmr":
+		ip := net.IPv4(127, 0, 0, 1)
+		if kind == "udpmr" { // a connected socket: only a reply from 127.0.0.2 is delivered
+			ip = net.IPv4(127, 0, 0, 2)
+		}
+		c, err := net.DialUDP("udp", nil, &net.UDPAddr{IP: ip, Port: f.ports[kind]})
 		if err != nil {
 			return exchResult{status: "err:dial"}
 		}
